@@ -13,7 +13,7 @@ def gen(rng, tier):
 
 
 globals().update(acct_prop.make(
-    'C10', components=['views.closable', 'trade.'], clauses=['C10.'], gen=gen, coq=['Proofs/ClosableFacts.v'],
+    'C10', components=['views.closable', 'trade.'], clauses=['C10.'], gen=gen, coq=['Proofs/ClosableFacts.v', 'Gen/PosArith.v'], gen_mods=['PosArith'],
     rule=('random scenarios dense in closing orders: resting limit closes, second closes while the first rests, sells on the purchase day, '
           'close-today and split futures closes in both directions, splits between buy and sell, T+1 on and off; a case is one recorded '
           'closable / today-closable view or trade step replayed through the Coq model; distinct non-trivial = distinct classes'),
